@@ -140,6 +140,17 @@ def extract():
         ab = re.sub(r"\s+", " ", fn_body(whole, "accept_and_serve"))
         return ab.count("report_error(") == 2 and "ConnectionError::Connection(err)" in ab and "ConnectionError::Handshake(err)" in ab
 
+    def f_cancel_races_reader():
+        # `select! { r = reader_task(..) => r, _ = conn_token.cancelled() => .. }`: the token is raced against the
+        # WHOLE reader future, so it is observed at every await point of the reader (next(), outbound_tx.send(..))
+        r, = pos(rd)
+        sel = re.search(r"tokio::select!\s*\{", body)
+        sel_end = match_brace(body, sel.end() - 1)
+        arms = body[sel.start():sel_end]
+        if not (sel.start() < r < sel_end): raise ExtractError("reader_task is not an arm of the select!")
+        if not re.search(r"=\s*reader_task\s*\(", arms) or not re.search(r"_\s*=\s*conn_token\.cancelled\(\)\s*=>", arms): raise ExtractError("select! arms")
+        return True
+
     def f_fetch_add():
         return bool(re.search(r"let\s+peer_id_value\s*=\s*config\s*\.\s*peer_id_counter\s*\.\s*fetch_add\(\s*1\s*,", body)) \
             and not re.search(r"peer_id_counter\s*\.\s*(store|load|swap|compare_exchange|fetch_update)", body)
@@ -165,6 +176,7 @@ def extract():
         "oneErrorReportPerOutcome": fact(f_one_report),
         "peerIdFetchAdd": fact(f_fetch_add),
         "hooksInRegistrationOrder": fact(f_appended),
+        "cancelRacesWholeReader": fact(f_cancel_races_reader),
         "unrecognised": unrecognised,
         "anchors": {"writer_spawn": f"{SRC}:{line_of(spawn)}", "guard": f"{SRC}:{line_of(guard)}",
                     "connect_loops": f"{SRC}:{line_of(h1)},{line_of(h2)}",
@@ -194,6 +206,8 @@ def render(f):
           f"def peerIdFetchAdd : Bool := {b(f['peerIdFetchAdd'])}",
           "/-- every registrar pushes at the end of its chain and `with_peer_registry` registers through them: hooks run in registration order -/",
           f"def hooksInRegistrationOrder : Bool := {b(f['hooksInRegistrationOrder'])}",
+          "/-- the connection token is raced against the whole `reader_task(..)` future in one `select!` (so a reader suspended in `outbound_tx.send` is abandoned on cancel) -/",
+          f"def cancelRacesWholeReader : Bool := {b(f['cancelRacesWholeReader'])}",
           "", "end Repe.Gen.Lifecycle"]
     return "\n".join(L) + "\n"
 
